@@ -2232,6 +2232,9 @@ class BruteForceStreamIASolver:
         # Now that we tested every possible solution, lets keep the best
         # one we found
         self._iasolver.clear()
+        # `clear` also resets the power: the best solution was found for `P`
+        if P is not None:
+            self._iasolver.P = P
         self._iasolver._F = self._best_F
         self._iasolver._full_F = self._best_full_F
         self._iasolver._W_H = self._best_W_H
